@@ -79,6 +79,9 @@ def explore_twins(task):
         for hist in frontier:
             wT0 = S.build(envT, hist)
             ops = S.gen_ops(rec, wT0, P)
+            # assignment of names the class does NOT manage (a private name, a brand-new name): a frozen instance refuses those too
+            ops = ops + [{"op": "set", "attr": "_scale", "value": 3, "shape": "set:private_name"},
+                         {"op": "set", "attr": "brand_new", "value": 3, "shape": "set:unmanaged_name"}]
             for op in ops:
                 wT = S.build(envT, hist)
                 # frozen world: replay history remembering every frozen instance ever created
@@ -235,6 +238,16 @@ class EscapesFailedInit:
 class FrozenNoCopy:
     x: int = 1
     xs: List[int] = [1]
+
+ATTACK = []
+
+@spec_class(frozen=True)
+class AttacksPeer:
+    x: int = 1
+    xs: List[int] = [1]
+    def __post_init__(self):
+        for attack in ATTACK:                 # while THIS instance is being initialised, a finished peer is attacked
+            attack()
 '''
 
 
@@ -275,7 +288,41 @@ SCEN_OPS = {
 }
 
 
+def peer_attack_case(opname):
+    """the licence to write is per instance: while one instance of a frozen class is inside its constructor, every other
+    (finished) instance of that class still refuses every change"""
+    ns = {"__name__": "verif_c07_scen", "copy": copy}
+    exec(compile(G.PRELUDE, "<c07-prelude>", "exec", dont_inherit=True), ns)
+    exec(compile(SCEN_SRC, "<c07-scenarios>", "exec", dont_inherit=True), ns)
+    cls = ns["AttacksPeer"]
+    peer = cls(x=2, xs=[5])
+    before = snap.canon([peer])
+    seen = {}
+
+    def attack():
+        try:
+            SCEN_OPS[opname](peer)
+            seen["raised"] = None
+        except Exception as e:
+            seen["raised"] = type(e).__name__
+
+    ns["ATTACK"].append(attack)
+    try:
+        cls()
+    finally:
+        ns["ATTACK"].clear()
+    probs = []
+    raised = seen.get("raised", "<not run>")
+    if snap.canon([peer]) != before:
+        probs.append(f"finished peer changed by {opname} issued from another instance's __post_init__ ({'raised ' + raised if raised else 'returned'})")
+    elif ("inplace" in opname or opname in ("assign", "delete")) and raised != "FrozenInstanceError":
+        probs.append(f"finished peer: {opname} from another instance's __post_init__ {'raised ' + raised if raised else 'was accepted'} instead of FrozenInstanceError")
+    return probs
+
+
 def scenario_case(name, opname):
+    if name == "peer_during_post_init":
+        return peer_attack_case(opname)
     probs = []
     for label, inst in scenario_targets(name):
         before = snap.canon([inst])
@@ -294,7 +341,7 @@ def scenario_case(name, opname):
 
 def scenarios_worker(task):
     C = Counter()
-    for name in ("copy_in_post_init", "escapes_failed_init", "frozen_do_not_copy"):
+    for name in ("copy_in_post_init", "escapes_failed_init", "frozen_do_not_copy", "peer_during_post_init"):
         for opname in SCEN_OPS:
             probs = scenario_case(name, opname)
             C.inc("states")
@@ -306,7 +353,7 @@ def scenarios_worker(task):
             else:
                 C.inc("traces_validated_against_impl")
                 C.nontrivial((name, opname))
-    C.sample({"part": "scenario", "scenarios": 3, "ops": list(SCEN_OPS)})
+    C.sample({"part": "scenario", "scenarios": 4, "ops": list(SCEN_OPS)})
     return C.rec
 
 
